@@ -314,7 +314,7 @@ Definition contains_generic (S : scheme_ops) (st : option native_style) (cs : li
        end.
 
 (* pypi's PEP 440 gate (pkg/spec/vers/pypi.go) *)
-Definition pre_markers : list bytes := [ $"alpha"; $"beta"; $"dev"; $"rc"; $"a"; $"b" ].
+Definition pre_markers : list bytes := [ $"alpha"; $"beta"; $"dev"; $"rc"; $"a"; $"b"; $"c" ].
 
 Definition marker_hit (s marker : bytes) : bool :=
   match cut marker s with
